@@ -236,6 +236,22 @@ KNOWN_CLASSES = {
         "an omitted node output is printed as the variable _<index>; a real value named _<index> is silently overwritten by it",
     "C13:names:non-ascii-alnum-not-identifier":
         "a non-ASCII character for which str.isalnum() holds but which cannot occur in an identifier (e.g. superscript two) is kept: SyntaxError",
+    "C13:inline_const:name-reused-in-sibling-subgraph:stale-literal":
+        "inline_const=True: _Exporter.constants is keyed by ONNX name and never scoped or reset: a constant `c` inlined in one subgraph (then-branch, "
+        "a Loop body) is substituted for a different, non-inlinable value called `c` of a sibling subgraph (ONNX scopes names to the subgraph), and a "
+        "function's inlined constant replaces a main-graph value of that name -- minimal input: If(b) then {c = Constant(3.0); t = x * c} else "
+        "{c = Constant(float[1,3] 23.0); e = ReduceSum(x * c, [0])}, b = False, x = [1, 1, 1]: original 23.0, regenerated (`e0 = Mul(x, 3.0)`) 3.0",
+    "C13:skip_initializers:name-of-skipped-initializer-bound-elsewhere:parameter-shadowed":
+        "skip_initializers=True: an initializer of more than 4 elements becomes a parameter of make_model under its Python name while a value of the "
+        "same ONNX name in a sibling subgraph (a small initializer, a node output) is still assigned inside the function: Python makes the name a local "
+        "of the function, the branch that should read the parameter reads an unbound / other variable (converter: Unbound name) -- minimal input: "
+        "If(b) then {w = float[1] initializer; t = x - w} else {w = float[2,3] initializer; e = x - w}; only two SKIPPED initializers of one name are refused",
+    "C13:attributes:string-tensor-containing-nan-or-inf:text-rewritten":
+        "_translate_attributes applies .replace('nan', 'np.nan').replace('inf', 'np.inf') to the printed element list of every tensor attribute, STRING "
+        "tensors included: Constant(value = [\"banana\", \"info\"]) is regenerated as [\"banp.nana\", \"np.info\"]",
+    "C13:skip_initializers:value-info-type-not-imported:NameError":
+        "skip_initializers=True prints `value_infos = {name: TYPE[...]}` for graph.value_info but imports only the element types of graph inputs / outputs: "
+        "a value_info of another element type (INT64 for a Shape result of a FLOAT model) gives NameError when the module is executed",
     "C13:comments:node-name-with-line-break:code-injected":
         "a node name is appended as `  # <name>`; a line break in the name ends the comment and the rest of the name becomes program text",
     "C13:docstring:quotes-or-trailing-backslash:SyntaxError":
@@ -253,6 +269,19 @@ def classify(case, info, collide, opts, out, cleanup):
         return "C13:skip_initializers:no-large-initializer:indented-source"
     if stage == "export" and exc == "IndexError" and is_model and info["pure_for"]:
         return "C13:loop:counted-loop-in-model-graph:IndexError"
+    if stage in ("mismatch", "to_proto") and opts["skip_initializers"] and case.get("dup_skipped"):
+        return "C13:skip_initializers:same-name-initializers-of-different-graphs:one-make_model-parameter"
+    if is_model and stage != "export":
+        from harness import c13_subinit as SI
+        feat = SI.reuse_features(case["proto"])
+        if opts["skip_initializers"] and feat["skipped_assigned"] and (((("Unbound name" in msg) or ("has no value before the loop" in msg)) and stage in ("exec", "to_proto")) or stage in ("mismatch", "load", "run")):
+            return "C13:skip_initializers:name-of-skipped-initializer-bound-elsewhere:parameter-shadowed"
+        if opts["inline_const"] and feat["inline_stale"] and stage in ("mismatch", "load", "run", "to_proto", "exec"):
+            return "C13:inline_const:name-reused-in-sibling-subgraph:stale-literal"
+        if stage in ("mismatch", "exec", "to_proto", "load", "run", "syntax") and SI.string_tensor_with_nan_inf(case["proto"]):
+            return "C13:attributes:string-tensor-containing-nan-or-inf:text-rewritten"
+        if stage == "exec" and exc == "NameError" and opts["skip_initializers"] and SI.value_info_types_not_in_interface(case["proto"]):
+            return "C13:skip_initializers:value-info-type-not-imported:NameError"
     unbound = re.search(r"Unbound name: (.*?)\. \|", msg) if (stage in ("exec", "to_proto") and exc == "ValueError") else None
     if unbound:
         name = unbound.group(1)
@@ -287,8 +316,6 @@ def classify(case, info, collide, opts, out, cleanup):
         return "C13:use_operators:negative-literal-pow-base:precedence"
     if stage in ("mismatch", "load", "run", "interface") and info["optional_outputs"] and any(re.fullmatch(r"_\d+", n) for n in G.all_names(case["proto"])):
         return "C13:names:missing-output-placeholder-collides"
-    if stage in ("mismatch", "to_proto") and opts["skip_initializers"] and case.get("dup_skipped"):
-        return "C13:skip_initializers:same-name-initializers-of-different-graphs:one-make_model-parameter"
     if collide:
         if stage in ("mismatch", "load", "run", "interface"):
             return "C13:names:collision-after-cleanup:silently-merged"
@@ -944,6 +971,7 @@ def replay(doc):
 
 
 def run_cases(ctx, cases, workdir, cleanup, stats):
+    from harness import c13_subinit as SI
     # verified checker, evaluated in Coq on the real names of every case
     name_lists = [G.all_names(c["proto"]) for c in cases]
     for c, nl in zip(cases, name_lists):
@@ -1005,8 +1033,9 @@ def run_cases(ctx, cases, workdir, cleanup, stats):
                     ctx.sample({"case": c["id"], "options": opt_tag(opts), "outcome": "round trip equal on %d feeds" % len(c["feeds"]),
                                 "nodes": info["nodes"], "depth": info["depth"], "collision_free": fr})
                 continue
-            if out["stage"] == "export" and out["exc"] == "RuntimeError" and "already present in skipped_initializers" in out["msg"] \
-                    and c.get("dup_skipped") and opts["skip_initializers"]:
+            if out["stage"] == "export" and out["exc"] == "RuntimeError" and opts["skip_initializers"] and c["kind"] == "model" and (
+                    ("already present in skipped_initializers" in out["msg"] and c.get("dup_skipped")) or
+                    ("shares its name with another value" in out["msg"] and (c.get("dup_skipped") or SI.reuse_features(c["proto"])["skipped_assigned"]))):
                 # two skipped initializers of different graphs under one name: one make_model parameter cannot stand for both;
                 # the descriptive refusal is an allowed outcome (Props/C13_subinit.v: refused iff two of them get the same Python name)
                 stats["refused_descriptively"] += 1
@@ -1236,6 +1265,8 @@ def run(ctx):
     for c in cf_feats:
         c["opts"] = [ALL_OPTS[0], dict(zip(OPT_NAMES, (False, True, True, False)))]
     sub_inits = stats.pop("subinit_cases", [])
+    from harness import c13_subinit as SI
+    sub_inits = sub_inits + SI.round6_cases(ctx.rng)  # directed families: sibling constants, STRING tensors, value_info types
     for c in sub_inits:
         c["opts"] = list(ALL_OPTS)  # every option tuple in both tiers
     cases = scripts + hand + attrs + ranks + models + funcs + templ + cf_feats + sub_inits
